@@ -180,8 +180,17 @@ func ruleTokens(e *Engine, r *Reporter) {
 		r.Check(strings.Contains(describe_(d2.Call.Args[0]), "Decode("), "TokenEncoder.Decode | decrypts the decoded bytes", e.instrPos(d2), "Decrypt(decoded)", "Decrypt is not applied to the decoded token")
 		ret := false
 		for _, rs := range returnSites(dec) {
-			if len(rs.Results) == 2 && strings.Contains(describe_(rs.Results[0]), "Decrypt(") && strings.Contains(describe_(rs.Results[1]), "Decrypt(") {
+			if len(rs.Results) != 2 {
+				continue
+			}
+			if strings.Contains(describe_(rs.Results[0]), "Decrypt(") && strings.Contains(describe_(rs.Results[1]), "Decrypt(") {
 				ret = true
+				continue
+			}
+			// every other return must be a failure (nil data, the decode error)
+			if !isNilConst(rs.Results[0]) || isNilConst(rs.Results[1]) {
+				ret = false
+				break
 			}
 		}
 		r.Check(ret, "TokenEncoder.Decode | returns Decrypt's verdict", e.pos(dec.Pos()), "plaintext and error come from Decrypt", "the result of Decode is not Decrypt's (plaintext, error) pair")
